@@ -257,6 +257,28 @@ def check(ctx: Ctx, col: Collector, tier: str) -> None:
                                  "the search stops at the first top-level string statement; other statements leave the docstring untouched" if okk else "loop shape differs",
                                  *([] if okk else ["the module docstring is not the first top-level string: a later bare string (e.g. an attribute docstring) replaces the module description"]))
 
+    # plaintext style: the docstring of a class / function is its first statement, if that is a string - not a later string statement such as the
+    # docstring of an attribute ("string below the assignment") or a stray string
+    from ..core.ctx import DOCHELPERS as _DH
+    hfi = repo.function(_DH, "get_full_docstring")
+    col.touched(hfi)
+    dloops = [n for n in ast.walk(hfi.node) if isinstance(n, ast.For) and "definitions" in ast.unparse(n.iter)]
+    first_only = any(isinstance(n, ast.Subscript) and isinstance(n.value, ast.Name) and n.value.id == "definitions" and ast.unparse(n.slice) in ("0", ":1") for n in ast.walk(hfi.node))
+    okk = False
+    why = "no loop over the statements and no use of the first statement found"
+    if dloops:
+        lp = dloops[0]
+        exits_always = bool(lp.body) and isinstance(lp.body[-1], (ast.Break, ast.Return)) or (
+            len(lp.body) == 1 and isinstance(lp.body[0], ast.If) and lp.body[0].orelse and all(isinstance(b[-1], (ast.Break, ast.Return)) for b in (lp.body[0].body, lp.body[0].orelse)))
+        sliced = isinstance(lp.iter, ast.Subscript) and ast.unparse(lp.iter.slice) == ":1"
+        okk = exits_always or sliced
+        why = "the loop never goes past the first statement" if okk else f"the loop at line {lp.lineno} visits every statement and keeps the last string it sees"
+    elif first_only:
+        okk, why = True, "only the first statement is consulted"
+    (col.ok if okk else col.bad)("C13.MODULE-DOC", f"{_DH}::get_full_docstring::first-statement-only", repo.loc(_DH, dloops[0] if dloops else hfi.node), why,
+                                 *([] if okk else ["with the plaintext style the description of a class or function is the *last* string statement of its body: a class that documents its attributes with a string below "
+                                                   "the assignment (`x: int = 1` / `\"\"\"Doc of x.\"\"\"`) gets `Doc of x.` as its description and loses its own docstring"]))
+
     # ------------------------------------------------------------------ STYLE-INDEPENDENT
     justified = {
         ("get_result_documentation", "Parser.numpy"): "numpydoc names its results and lists several entries; handled by its own branch (the other branch is the listed finding get_result_documentation::every-entry)",
@@ -354,6 +376,27 @@ def check(ctx: Ctx, col: Collector, tier: str) -> None:
                 col.bad("C13.RESULT-DOC-NAME", key, repo.loc(GEN, rnode), f"generated names drawn per iteration: {sorted(draws)}, reference {sorted(want)}",
                         f"for a result that is {'named' if named else 'unnamed'} and {'described' if described else 'not described'} the @result loop draws {sorted(draws)} generated name(s) instead of {sorted(want)}: "
                         f"the numbering of the documented results drifts from the numbering of the signature (e.g. 'Returns: int / str: text' documents the text as result_1)")
+
+    # the documentation objects a function is built from are not consumed on the way: the list of result docstrings handed to _parse_results is
+    # the list enter_funcdef stores in the Function, from which the generator writes the @result lines
+    from ..core.ctx import VISITOR as _VIS2
+    for q2 in ("MyPyAstVisitor._parse_results", "MyPyAstVisitor._create_inferred_results", "MyPyAstVisitor._parse_parameter_data"):
+        f2 = repo.maybe_function(_VIS2, q2)
+        if f2 is None:
+            continue
+        col.touched(f2)
+        doc_params = [p for p in f2.params() if "docstring" in p]
+        for pname in doc_params:
+            rebound = [x.lineno for x in ast.walk(f2.node) if isinstance(x, ast.Assign) and any(isinstance(t, ast.Name) and t.id == pname for t in x.targets)
+                       and isinstance(x.value, ast.Call) and (getattr(x.value.func, "id", "") in ("list", "sorted", "tuple") or getattr(x.value.func, "attr", "") in ("copy",))]
+            muts = [x for x in ast.walk(f2.node) if isinstance(x, ast.Call) and isinstance(x.func, ast.Attribute) and isinstance(x.func.value, ast.Name) and x.func.value.id == pname
+                    and x.func.attr in ("remove", "pop", "clear", "append", "extend", "insert", "sort", "reverse") and not any(r < x.lineno for r in rebound)]
+            muts += [x for x in ast.walk(f2.node) if isinstance(x, (ast.Delete,)) and any(isinstance(t, ast.Subscript) and isinstance(t.value, ast.Name) and t.value.id == pname for t in x.targets)]
+            key = f"{_VIS2}::{q2}::{pname}-not-consumed"
+            (col.ok if not muts else col.bad)("C13.RESULT-DOC-NAME", key, repo.loc(_VIS2, muts[0] if muts else f2.node),
+                                              f"`{pname}` is only read" if not muts else f"`{ast.unparse(muts[0])[:60]}`",
+                                              *([] if not muts else [f"{q2} changes the list `{pname}` it was handed (`{ast.unparse(muts[0])[:50]}`): the caller stores the same list in the Function, so the "
+                                                                     f"documentation of the entries taken out is missing from the stub (`@result` lines vanish when the documented results are matched to a tuple hint by type)"]))
 
     # ------------------------------------------------------------------ ACCUMULATE
     for gname in ("get_class_documentation", "get_function_documentation"):
